@@ -112,7 +112,7 @@ class Ctx:
         self.stats = {'files_checked': 0, 'model_reencode_identical': 0, 'tool_rewrite_identical': 0, 'dumps_compared': 0,
                       'gen_states': 0, 'gen_roundtrip': 0, 'malformed': 0, 'malformed_accepted_both': 0, 'malformed_rejected_both': 0,
                       'blocks_by_state': {1: 0, 2: 0, 3: 0, 4: 0}, 'info_flags': {'bad': 0, 'rehash': 0, 'justsynced': 0, 'none': 0},
-                      'versions': {2: 0, 3: 0}, 'hashsizes': {}, 'commands': 0, 'clamped_rewrites': 0, 'holes': 0,
+                      'versions': {2: 0, 3: 0}, 'hashsizes': {}, 'commands': 0, 'bare_disks': {'dirs': 0, 'links': 0, 'nothing': 0}, 'clamped_rewrites': 0, 'holes': 0,
                       'backward_clock_rewrite_changes_bytes': 0}
         self.distinct = set()
         self.samples = []
@@ -128,6 +128,10 @@ class Ctx:
         with self.lock:
             st = self.stats
             for d in s['disks']:
+                if not d['files'] and not d['deleted']:
+                    kind = 'dirs' if d['dirs'] and not d['links'] else ('links' if d['links'] and not d['dirs'] else ('nothing' if not d['links'] else None))
+                    if kind:
+                        st['bare_disks'][kind] += 1
                 for f in d['files']:
                     for b in f['blocks']:
                         st['blocks_by_state'][b['state']] = st['blocks_by_state'].get(b['state'], 0) + 1
@@ -293,9 +297,13 @@ def scenario(ctx, idx, seed, steps, root):
     log = []
     replay = {'kind': 'scenario', 'seed': seed, 'steps': steps, 'log': log}
 
+    # sometimes the last disk holds no file at all: only an empty directory, or only a symlink (fs_is_empty must still map it)
+    bare = rng.choice([None, None, 'dirs', 'links']) if nd > 2 else None
+    nfd = nd - 1 if bare else nd
+
     def add_files(k):
         for _ in range(k):
-            d = rng.randrange(nd)
+            d = rng.randrange(nfd)
             sub = rng.choice(names)
             if rng.random() < 0.3:
                 sub = sub + b'_%d' % rng.randrange(100)
@@ -315,7 +323,10 @@ def scenario(ctx, idx, seed, steps, root):
     try:
         os.symlink(b'target\xff:\n', A.dpath(0, b'sym\x01link'))
         os.symlink(b'', A.dpath(1 % nd, b'sym2')) if False else None
-        os.makedirs(A.dpath(nd - 1, b'empty:dir\n/inner'), exist_ok=True)
+        if bare != 'links':
+            os.makedirs(A.dpath(nd - 1, b'empty:dir\n/inner'), exist_ok=True)
+        else:
+            os.symlink(b'no where', A.dpath(nd - 1, b'only link'))
         k0 = [k for k in present if k[0] == 0 and present[k] > 0]
         if k0:
             os.link(A.dpath(0, k0[0][1]), A.dpath(0, b'hard\\link'))
@@ -347,9 +358,9 @@ def scenario(ctx, idx, seed, steps, root):
                     size = present[k] if m == 'mod' else present[k] + rng.choice([1, 1024, 2500])
                     L.write_file(A.dpath(*k), size, rng)
                     present[k] = size
-                elif m == 'move' and nd > 1:
+                elif m == 'move' and nfd > 1:
                     k = rng.choice(keys)
-                    d2 = (k[0] + 1) % nd
+                    d2 = (k[0] + 1) % nfd
                     if (d2, k[1]) not in present and sum(1 for x in keys if x[0] == k[0]) > 1 and \
                             not any(k[1].startswith(o + b'/') or o.startswith(k[1] + b'/') for (dd, o) in present if dd == d2):
                         try:
